@@ -39,7 +39,8 @@ ASSUMPTIONS = [
     "ULPI PHY contract of lib/ulpi.py: turnaround on DIR edges (NXT=1 in the rising turnaround = receive start), DIR "
     "high >= 2 cycles, DIR=1&NXT=0 after the turnaround is an RxCmd, DIR=1&NXT=1 a data byte; data bytes only inside a "
     "receive the PHY announced (DIR rise with NXT, or RxCmd with RxActive=1) and not after RxCmd with RxActive=0; NXT "
-    "with DIR=0 only to accept a presented command byte; no DIR rise inside an accepted transmit command",
+    "with DIR=0 only to accept a presented command byte; no DIR rise inside an accepted transmit command -- except in "
+    "layer bmc_txabort, where the PHY may pre-empt an accepted transmission by DIR at any time (3.8.2.3)",
     "the PHY never sends register-read data unasked; the translator never issues RegRead (asserted: no_regread)",
     "UTMI control inputs are symbolic constants of a run (so the start-up register writes are or are not needed); "
     "UTMI transmit side free within the producer contract (valid/data held until tx_ready)",
@@ -58,12 +59,14 @@ OUTSIDE = "register-read responses on the bus (UTMITranslator cannot issue reads
 class RxHarness(Harness):
     domains = ("usb",)
 
-    def __init__(self, with_tx=True):
+    def __init__(self, with_tx=True, tx_abort=False):
         super().__init__()
         from luna.gateware.interface.ulpi import UTMITranslator
         self.bus = ULPIBus()
         self.dut = UTMITranslator(ulpi=self.bus, handle_clocking=False)
-        self.phy = ULPIPhyModel(self, self.bus)
+        # tx_abort: the PHY may raise DIR at any time, also inside a transmit command it has accepted (ULPI 1.1
+        # 3.8.2.3: the PHY aborts the link's transmission; the receive path must keep working regardless)
+        self.phy = ULPIPhyModel(self, self.bus, tx_abort=tx_abort)
         self.with_tx = with_tx
         if with_tx:
             self.inp("tx_valid", signal=self.dut.tx_valid)
@@ -76,7 +79,7 @@ class RxHarness(Harness):
                  "line_state", "vbus_flags", "rx_event_flags", "no_regread"]
         self.v = {n: self.viol(n) for n in names}
         cov = ["byte_delivered", "tracked", "rxcmd_midpacket", "dir_start", "rxcmd_start", "dir_abort",
-               "rxcmd_stop", "second_packet", "flags_updated", "rx_during_regwrite", "rxcmd_during_regwrite"]
+               "rxcmd_stop", "second_packet", "flags_updated", "rx_during_regwrite", "rxcmd_during_regwrite", "rx_preempts_tx"]
         self.c = {n: self.cover(n) for n in cov}
 
     def elaborate(self, platform):
@@ -174,6 +177,13 @@ class RxHarness(Harness):
                 d += sent_in_rx.eq(1)
             with m.If(phy.rxcmd & sent_in_rx & bus.data.i[4]):
                 d += mid_cmd.eq(1)
+        # the PHY pre-empted a transmission it had accepted (DIR rose in its TX state) and the UTMI side still transmits
+        tx_cut = Signal(name="tx_cut")
+        with m.If(phy.in_state(phy.TX) & bus.dir.i):
+            d += tx_cut.eq(1)
+        with m.Elif(~dut.tx_valid):
+            d += tx_cut.eq(0)
+        m.d.comb += c["rx_preempts_tx"].eq(dut.rx_valid & tx_cut & dut.tx_valid & had_byte)
         m.d.comb += [
             c["rxcmd_midpacket"].eq(dut.rx_valid & mid_cmd),
             c["dir_start"].eq(dut.rx_valid & pk_dirstart & ~pk_cmdstart),
@@ -251,17 +261,23 @@ def queries(tier):
     quick = tier == "quick"
     f = RxHarness
     f_notx = lambda: RxHarness(with_tx=False)
+    f_abort = lambda: RxHarness(with_tx=True, tx_abort=True)
     defaults = dict(xcvr_select=1, term_select=0, op_mode=0, suspend=0, id_pullup=0, dm_pulldown=1, dp_pulldown=1,
                     chrg_vbus=0, dischrg_vbus=0, use_external_vbus_indicator=0)
     qs = [
         Query("bmc_nowrites", f_notx, 12 if quick else 20, covers=[], layer=defaults, timeout=900,
               desc="layer: control inputs pinned to the PHY's register reset values (the translator never issues a "
                    "register write), transmit side idle: isolates the receive logic from the register window"),
-        Query("bmc_free", f, 12 if quick else 20, timeout=900,
+        Query("bmc_free", f, 12 if quick else 20, timeout=900, covers=[n for n in f().c if n != "rx_preempts_tx"],
               desc="UTMITranslator: DIR/NXT/DATA free within the PHY contract, control inputs symbolic constants, "
                    "transmit side free"),
         Query("bmc_rxonly", f_notx, 15 if quick else 26, covers=[], timeout=900,
               desc="layer: UTMI transmit side idle (tx_valid=0), deeper receive histories"),
+        Query("bmc_txabort", f_abort, 12 if quick else 18, timeout=900,
+              asserts=["stream_valid", "stream_data", "order", "rxactive_follows", "rxactive_dir", "utmi_contract"],
+              covers=["rx_preempts_tx"],
+              desc="layer: the PHY may raise DIR at any time, also inside a transmit command it already accepted "
+                   "(pre-empting the transmission); UTMI producer keeps tx_valid as long as it likes; receive clauses only"),
         Query("bmc_decoder", RxDecoderHarness, 12 if quick else 20,
               desc="ULPIRxEventDecoder alone: RxCmd sampling, masking during register operations, start/stop strobes"),
         Query("cosim", f, 0, kind="cosim", cosim_cycles=300 if quick else 2000),
